@@ -177,9 +177,16 @@ Section Inv.
     intros l. unfold flatten_arr. eapply h_bind; [apply k_get_cell|]. intros c. apply h_alloc.
   Qed.
 
-  Lemma k_call_f : forall O args, keeps (Inv V) (call_f O args).
+  (* the function's own global assignments must keep the predicate on the bindings *)
+  Definition writes_keep (O : oracle) : Prop :=
+    forall k a s vs, V vs -> V (apply_writes (snd (O k a s)) vs).
+
+  Lemma k_call_f : forall O args, writes_keep O -> keeps (Inv V) (call_f O args).
   Proof.
-    intros O args s HI. unfold call_f. destruct (O (length (log s)) args (sto s)); exact HI.
+    intros O args HW s [Hf HV]. unfold call_f.
+    pose proof (HW (length (log s)) args (sto s) (vars (sto s)) HV) as HV'.
+    destruct (O (length (log s)) args (sto s)) as [r ws]. simpl in HV'.
+    destruct r; (split; [exact Hf | exact HV']).
   Qed.
 
   Lemma k_scalar_value : forall r, keeps (Inv V) (scalar_value r).
@@ -338,53 +345,74 @@ End Inv.
 (* ---------------------------------------------------------------- rebinding and restoring variables *)
 Section Rebind.
   Variable s0 : store.
+  Variable W : list name.        (* the names the differentiated function itself may assign *)
+
+  (* "everything the function never assigns is bound as at the start" *)
+  Notation VW := (Vout s0 W).
 
   Lemma h_setvar : forall (V V' : list (name * val) -> Prop) n v E,
     (forall vs, V vs -> V' (setv n v vs)) ->
     hoare (Inv s0 V) (setvar n v) (fun _ => Inv s0 V') E.
   Proof. intros V V' n v E H s [Hf HV]. unfold setvar. simpl. split; [exact Hf|]. apply H. exact HV. Qed.
 
-  Lemma Veq_to_Vout : forall syms a v vs, In a syms -> Vout s0 syms vs -> Vout s0 syms (setv a v vs).
+  Lemma Vout_setv_in : forall L a v vs, In a L -> Vout s0 L vs -> Vout s0 L (setv a v vs).
   Proof.
-    intros syms a v vs Hin HV n Hn. rewrite lookup_setv.
+    intros L a v vs Hin HV n Hn. rewrite lookup_setv.
     destruct (Z.eqb a n) eqn:Han; [|apply HV; exact Hn].
     apply Z.eqb_eq in Han. subst. contradiction.
   Qed.
 
-  Lemma Veq_Vout : forall syms vs, Veq s0 vs -> Vout s0 syms vs.
-  Proof. intros syms vs H n _. apply H. Qed.
+  Lemma Vout_incl : forall L L' vs, incl L L' -> Vout s0 L vs -> Vout s0 L' vs.
+  Proof. intros L L' vs Hi H n Hn. apply H. intros Hin. apply Hn. apply Hi. exact Hin. Qed.
 
-  Lemma Veq_set_same : forall a v vs, lookup a (vars s0) = Some v -> Veq s0 vs -> Veq s0 (setv a v vs).
+  Lemma Vout_set_same : forall L a v vs, lookup a (vars s0) = Some v -> Vout s0 L vs -> Vout s0 L (setv a v vs).
   Proof.
-    intros a v vs Ha HV n. rewrite lookup_setv. destruct (Z.eqb a n) eqn:Han; [|apply HV].
+    intros L a v vs Ha HV n Hn. rewrite lookup_setv. destruct (Z.eqb a n) eqn:Han; [|apply HV; exact Hn].
     apply Z.eqb_eq in Han. subst. symmetry. exact Ha.
   Qed.
 
-  Lemma Vout1_restore : forall a v vs, lookup a (vars s0) = Some v -> Vout s0 [a] vs -> Veq s0 (setv a v vs).
+  Lemma Vout1_restore : forall L a v vs, lookup a (vars s0) = Some v -> Vout s0 (a :: L) vs -> Vout s0 L (setv a v vs).
   Proof.
-    intros a v vs Ha HV n. rewrite lookup_setv. destruct (Z.eqb a n) eqn:Han.
+    intros L a v vs Ha HV n Hn. rewrite lookup_setv. destruct (Z.eqb a n) eqn:Han.
     - apply Z.eqb_eq in Han. subst. symmetry. exact Ha.
-    - apply HV. intros [H|[]]. subst. rewrite Z.eqb_refl in Han. discriminate.
+    - apply HV. intros [H|H]; [subst; rewrite Z.eqb_refl in Han; discriminate | contradiction].
+  Qed.
+
+  Definition set_all (pairs : list (name * val)) (vs : list (name * val)) : list (name * val) :=
+    fold_left (fun acc p => setv (fst p) (snd p) acc) pairs vs.
+
+  Lemma set_all_out : forall L pairs vs,
+    (forall p, In p pairs -> In (fst p) L) -> Vout s0 L vs -> Vout s0 L (set_all pairs vs).
+  Proof.
+    intros L pairs. induction pairs as [|p r IH]; intros vs Hin HV; simpl; [exact HV|].
+    apply IH; [intros q Hq; apply Hin; now right|].
+    apply Vout_setv_in; [apply Hin; now left | exact HV].
+  Qed.
+
+  (* the function writes only names of W *)
+  Definition writes_in (O : oracle) : Prop :=
+    forall k a s p, In p (snd (O k a s)) -> In (fst p) W.
+
+  Lemma writes_keep_Vout : forall O L, writes_in O -> incl W L -> writes_keep (Vout s0 L) O.
+  Proof.
+    intros O L HO Hi k a s vs HV. apply (set_all_out L (snd (O k a s)) vs); [|exact HV].
+    intros p Hp. apply Hi. exact (HO k a s p Hp).
   Qed.
 
   (* klong[a] = v; try: body  finally: klong[a] = orig       (eval_dyad_grad.func, single_param_fn) *)
   Lemma k_rebind_one : forall A a v orig (body : M A),
     lookup a (vars s0) = Some orig ->
-    keeps (Inv s0 (Vout s0 [a])) body ->
-    keeps (Inv s0 (Veq s0)) (setvar a v ;;; guarded true body (setvar a orig)).
+    keeps (Inv s0 (Vout s0 (a :: W))) body ->
+    keeps (Inv s0 VW) (setvar a v ;;; guarded true body (setvar a orig)).
   Proof.
     intros A a v orig body Ha Hb.
     eapply h_bind.
-    - apply h_setvar with (V' := Vout s0 [a]). intros vs HV.
-      apply Veq_to_Vout; [now left | apply Veq_Vout; exact HV].
+    - apply h_setvar with (V' := Vout s0 (a :: W)). intros vs HV.
+      apply Vout_setv_in; [now left | eapply Vout_incl; [|exact HV]; intros x Hx; now right].
     - intros ?. cbn [guarded]. eapply h_finally; [exact Hb | |].
       + intros ?. apply h_setvar. intros vs. apply Vout1_restore. exact Ha.
       + apply h_setvar. intros vs. apply Vout1_restore. exact Ha.
   Qed.
-
-  (* bind_all is a sequence of assignments *)
-  Definition set_all (pairs : list (name * val)) (vs : list (name * val)) : list (name * val) :=
-    fold_left (fun acc p => setv (fst p) (snd p) acc) pairs vs.
 
   Lemma bind_all_eq : forall syms vals s,
     bind_all syms vals s =
@@ -396,20 +424,12 @@ Section Rebind.
     - unfold bind at 1. unfold setvar at 1. simpl. rewrite IH. reflexivity.
   Qed.
 
-  Lemma set_all_out : forall syms pairs vs,
-    (forall p, In p pairs -> In (fst p) syms) -> Vout s0 syms vs -> Vout s0 syms (set_all pairs vs).
-  Proof.
-    intros syms pairs. induction pairs as [|p r IH]; intros vs Hin HV; simpl; [exact HV|].
-    apply IH; [intros q Hq; apply Hin; now right|].
-    apply Veq_to_Vout; [apply Hin; now left | exact HV].
-  Qed.
-
   Lemma set_all_restore : forall pairs vs,
     (forall p, In p pairs -> lookup (fst p) (vars s0) = Some (snd p)) ->
-    Vout s0 (map fst pairs) vs -> Veq s0 (set_all pairs vs).
+    Vout s0 (map fst pairs ++ W) vs -> VW (set_all pairs vs).
   Proof.
     induction pairs as [|[a v] r IH]; intros vs Hor HV; simpl.
-    - intros n. apply HV. intros [].
+    - exact HV.
     - apply IH; [intros q Hq; apply Hor; now right|].
       intros n Hn. rewrite lookup_setv. simpl. destruct (Z.eqb a n) eqn:Han.
       + apply Z.eqb_eq in Han. subst. symmetry. exact (Hor (n, v) (or_introl eq_refl)).
@@ -440,14 +460,16 @@ Section Rebind.
   Qed.
 
   Lemma h_map_m_getvar : forall syms,
-    hoare (Inv s0 (Veq s0)) (map_m getvar syms)
-      (fun vals s => Inv s0 (Veq s0) s /\ Forall2 (fun n v => lookup n (vars s0) = Some v) syms vals)
-      (Inv s0 (Veq s0)).
+    (forall n, In n syms -> ~ In n W) ->
+    hoare (Inv s0 VW) (map_m getvar syms)
+      (fun vals s => Inv s0 VW s /\ Forall2 (fun n v => lookup n (vars s0) = Some v) syms vals)
+      (Inv s0 VW).
   Proof.
-    intros syms s HI. destruct (map_m_getvar syms s) as [[vals [Hm HF]] | [e Hm]]; rewrite Hm.
+    intros syms Hnw s HI. destruct (map_m_getvar syms s) as [[vals [Hm HF]] | [e Hm]]; rewrite Hm.
     - split; [exact HI|]. destruct HI as [_ HV].
-      clear Hm. induction HF as [|n v l l' H HF IH]; constructor; [|exact IH].
-      rewrite <- HV. exact H.
+      clear Hm. induction HF as [|n v l l' H HF IH]; constructor.
+      + rewrite <- HV; [exact H | apply Hnw; now left].
+      + apply IH. intros m Hm. apply Hnw. now right.
     - exact HI.
   Qed.
 
@@ -464,25 +486,27 @@ Section Rebind.
 
   (* multi_grad_of_fn.call_fn_with_tensors with its finally *)
   Lemma k_call_fn_with_tensors : forall fl O syms tensors,
-    mg_finally fl = true ->
-    keeps (Inv s0 (Veq s0)) (call_fn_with_tensors fl O syms tensors).
+    mg_finally fl = true -> writes_in O -> (forall n, In n syms -> ~ In n W) ->
+    keeps (Inv s0 VW) (call_fn_with_tensors fl O syms tensors).
   Proof.
-    intros fl O syms tensors Hfin. unfold call_fn_with_tensors. rewrite Hfin.
-    eapply h_bind; [apply h_map_m_getvar|]. intros originals s [HI HF]. revert s HI.
-    change (keeps (Inv s0 (Veq s0))
+    intros fl O syms tensors Hfin HO Hnw. unfold call_fn_with_tensors. rewrite Hfin.
+    eapply h_bind; [apply h_map_m_getvar; exact Hnw|]. intros originals s [HI HF]. revert s HI.
+    change (keeps (Inv s0 VW)
              (guarded true (bind_all syms tensors ;;; call_f O []) (bind_all syms originals))).
-    assert (Hrestore : hoare (Inv s0 (Vout s0 syms)) (bind_all syms originals)
-                             (fun _ => Inv s0 (Veq s0)) (Inv s0 (Veq s0))).
+    assert (Hrestore : hoare (Inv s0 (Vout s0 (syms ++ W))) (bind_all syms originals)
+                             (fun _ => Inv s0 VW) (Inv s0 VW)).
     { intros s [Hf HV]. rewrite bind_all_eq. split; [exact Hf|]. simpl.
       apply set_all_restore.
       - intros p Hp. exact (Forall2_combine_in _ _ _ _ _ p HF Hp).
       - rewrite (Forall2_combine_fst _ _ _ _ _ HF). exact HV. }
-    simpl. eapply h_finally with (Q1 := fun _ => Inv s0 (Vout s0 syms)) (E1 := Inv s0 (Vout s0 syms)).
-    - eapply h_bind with (Q := fun _ => Inv s0 (Vout s0 syms)).
+    simpl. eapply h_finally with (Q1 := fun _ => Inv s0 (Vout s0 (syms ++ W))) (E1 := Inv s0 (Vout s0 (syms ++ W))).
+    - eapply h_bind with (Q := fun _ => Inv s0 (Vout s0 (syms ++ W))).
       + intros s [Hf HV]. rewrite bind_all_eq. split; [exact Hf|]. simpl.
-        apply set_all_out; [intros p Hp; eapply in_combine_fst; exact Hp | apply Veq_Vout; exact HV].
-      + intros _. apply k_call_f.
-    - intros _. exact Hrestore.
+        apply set_all_out.
+        * intros p Hp. apply in_or_app. left. eapply in_combine_fst. exact Hp.
+        * eapply Vout_incl; [|exact HV]. intros x Hx. apply in_or_app. now right.
+      + intros ?. apply k_call_f. apply writes_keep_Vout; [exact HO|]. intros x Hx. apply in_or_app. now right.
+    - intros ?. exact Hrestore.
     - exact Hrestore.
   Qed.
 End Rebind.
@@ -490,18 +514,26 @@ End Rebind.
 (* ---------------------------------------------------------------- the operators *)
 Section Forms.
   Variable s0 : store.
+  Variable W : list name.
   Variable fl : srcflags.
   Variable autograd : bool.
   Variable O : oracle.
+  Hypothesis HO : writes_in W O.
 
-  Notation Good := (Inv s0 (Veq s0)).
+  Notation Good := (Inv s0 (Vout s0 W)).
 
-  Lemma h_getvar_eq : forall n,
+  Lemma k_callf : forall args, keeps Good (call_f O args).
+  Proof. intros. apply k_call_f. apply (writes_keep_Vout s0 W O W HO). intros x Hx. exact Hx. Qed.
+
+  Lemma k_callf1 : forall a args, keeps (Inv s0 (Vout s0 (a :: W))) (call_f O args).
+  Proof. intros. apply k_call_f. apply (writes_keep_Vout s0 W O (a :: W) HO). intros x Hx. now right. Qed.
+
+  Lemma h_getvar_eq : forall n, ~ In n W ->
     hoare Good (getvar n) (fun v s => Good s /\ lookup n (vars s0) = Some v) Good.
   Proof.
-    intros n s HI. pose proof (h_getvar s0 (Veq s0) n s HI) as H.
+    intros n Hn s HI. pose proof (h_getvar s0 (Vout s0 W) n s HI) as H.
     destruct (getvar n s) as [[v|e] s1]; [|exact H].
-    destruct H as [HI1 H]. split; [exact HI1|]. destruct HI1 as [_ HV]. rewrite <- HV. exact H.
+    destruct H as [HI1 H]. split; [exact HI1|]. destruct HI1 as [_ HV]. rewrite <- HV; [exact H | exact Hn].
   Qed.
 
   Lemma k_grad_of_fn : forall x,
@@ -509,24 +541,24 @@ Section Forms.
     keeps Good (grad_of_fn fl autograd O x).
   Proof.
     intros x Hs. unfold grad_of_fn. destruct autograd.
-    - apply k_compute_autograd. intros v. apply k_call_f.
+    - apply k_compute_autograd. intros v. apply k_callf.
     - destruct Hs as [H|H]; [discriminate|].
-      apply k_numeric_grad; [intros v; apply k_call_f | exact H].
+      apply k_numeric_grad; [intros v; apply k_callf | exact H].
   Qed.
 
   Lemma k_grad_point : forall x,
     safe_val s0 (ng_copies_input fl) x -> keeps Good (grad_point fl O x).
-  Proof. intros x H. unfold grad_point. apply k_numeric_grad; [intros v; apply k_call_f | exact H]. Qed.
+  Proof. intros x H. unfold grad_point. apply k_numeric_grad; [intros v; apply k_callf | exact H]. Qed.
 
   Lemma k_grad_sym : forall a,
-    grad_finally fl = true ->
+    grad_finally fl = true -> ~ In a W ->
     (forall v, lookup a (vars s0) = Some v -> safe_val s0 (ng_copies_input fl) v) ->
     keeps Good (grad_sym fl O a).
   Proof.
-    intros a Hfin Hs. unfold grad_sym. rewrite Hfin.
-    eapply k_bind_post; [apply h_getvar_eq|]. intros orig Ho.
+    intros a Hfin Ha Hs. unfold grad_sym. rewrite Hfin.
+    eapply k_bind_post; [apply h_getvar_eq; exact Ha|]. intros orig Ho.
     apply k_numeric_grad; [|apply Hs; exact Ho].
-    intros v. apply k_rebind_one; [exact Ho | apply k_call_f].
+    intros v. apply k_rebind_one; [exact Ho | apply k_callf1].
   Qed.
 
   Lemma k_jacobian_of_fn : forall x,
@@ -534,24 +566,26 @@ Section Forms.
   Proof.
     intros x Hp. unfold jacobian_of_fn. destruct autograd.
     - apply k_catch.
-      + apply k_compute_jacobian. intros v. apply k_call_f.
-      + apply k_numeric_jacobian; [intros v; apply k_call_f | exact Hp].
-    - apply k_numeric_jacobian; [intros v; apply k_call_f | exact Hp].
+      + apply k_compute_jacobian. intros v. apply k_callf.
+      + apply k_numeric_jacobian; [intros v; apply k_callf | exact Hp].
+    - apply k_numeric_jacobian; [intros v; apply k_callf | exact Hp].
   Qed.
 
   Lemma k_setvar_same : forall a v, lookup a (vars s0) = Some v -> keeps Good (setvar a v).
-  Proof. intros a v Ha. apply h_setvar. intros vs. apply Veq_set_same. exact Ha. Qed.
+  Proof. intros a v Ha. apply h_setvar. intros vs. apply Vout_set_same. exact Ha. Qed.
 
   Lemma k_multi_jacobian_of_fn : forall syms,
     (nj_flat_copy fl = true /\ nj_pert_copy fl = true) -> mj_finally fl = true ->
+    (forall n, In n syms -> ~ In n W) ->
     keeps Good (multi_jacobian_of_fn fl autograd O syms).
   Proof.
-    intros syms Hp Hfin. unfold multi_jacobian_of_fn. rewrite Hfin.
+    intros syms Hp Hfin Hnw. unfold multi_jacobian_of_fn. rewrite Hfin.
     apply k_bind; [apply k_map_m; intros n _; apply k_getvar|].
-    intros param_values. apply k_map_m. intros [sym v] _.
-    eapply k_bind_post; [apply h_getvar_eq|]. intros original Ho.
+    intros param_values. apply k_map_m. intros [sym v] Hin.
+    assert (Hsym : ~ In sym W) by (apply Hnw; exact (in_combine_l _ _ _ _ Hin)).
+    eapply k_bind_post; [apply h_getvar_eq; exact Hsym|]. intros original Ho.
     assert (Hf : forall w, keeps Good (setvar sym w ;;; guarded true (call_f O []) (setvar sym original))).
-    { intros w. apply k_rebind_one; [exact Ho | apply k_call_f]. }
+    { intros w. apply k_rebind_one; [exact Ho | apply k_callf1]. }
     apply k_bind.
     - destruct autograd.
       + apply k_catch; [apply k_compute_jacobian; exact Hf | apply k_numeric_jacobian; [exact Hf | exact Hp]].
@@ -574,7 +608,7 @@ Section Forms.
   Proof.
     intros func params Hf. unfold compute_multi_autograd.
     apply k_bind.
-    - apply k_map_m. intros v _. exact (h_create_grad_tensor s0 (Veq s0) v).
+    - apply k_map_m. intros v _. exact (h_create_grad_tensor s0 (Vout s0 W) v).
     - intros ts. apply k_bind; [apply Hf|]. intros y.
       destruct y; [apply k_fail | apply k_fail | | apply k_fail].
       destruct (negb (Nat.eqb size 1)); [apply k_fail|].
@@ -583,13 +617,13 @@ Section Forms.
   Qed.
 
   Lemma k_multi_grad_of_fn : forall syms,
-    mg_finally fl = true ->
+    mg_finally fl = true -> (forall n, In n syms -> ~ In n W) ->
     autograd = true \/
       (forall n v, In n syms -> lookup n (vars s0) = Some v -> safe_val s0 (ng_copies_input fl) v) ->
     keeps Good (multi_grad_of_fn fl autograd O syms).
   Proof.
-    intros syms Hfin Hs. unfold multi_grad_of_fn.
-    eapply h_bind; [apply h_map_m_getvar|]. intros param_values s [HI HF]. revert s HI.
+    intros syms Hfin Hnw Hs. unfold multi_grad_of_fn.
+    eapply h_bind; [apply h_map_m_getvar; exact Hnw|]. intros param_values s [HI HF]. revert s HI.
     change (keeps Good
       (if autograd then compute_multi_autograd (call_fn_with_tensors fl O syms) param_values
        else map_m (fun i =>
@@ -598,11 +632,11 @@ Section Forms.
               | None => fail EOther
               end) (seq 0 (length syms)))).
     destruct autograd.
-    - apply k_compute_multi_autograd. intros ts. apply k_call_fn_with_tensors. exact Hfin.
+    - apply k_compute_multi_autograd. intros ts. apply k_call_fn_with_tensors; assumption.
     - destruct Hs as [H|Hs]; [discriminate|].
       apply k_map_m. intros i _. destruct (nth_error param_values i) as [p|] eqn:Hp; [|apply k_fail].
       apply k_numeric_grad.
-      + intros v. apply k_call_fn_with_tensors. exact Hfin.
+      + intros v. apply k_call_fn_with_tensors; assumption.
       + destruct (Forall2_nth_error_r _ _ _ _ _ _ _ HF Hp) as [n [Hin Hn]]. exact (Hs n p Hin Hn).
   Qed.
 
@@ -618,18 +652,26 @@ Section Forms.
     | FJacVar _ | FJacMulti _ => True
     end.
 
+  (* the differentiated function does not itself assign the parameters that are rebound by name *)
+  Definition params_not_written (fm : form) : Prop :=
+    match fm with
+    | FGradMulti syms | FJacMulti syms => forall n, In n syms -> ~ In n W
+    | FNablaSym p | FGradVar p => ~ In p W
+    | FNablaPoint _ | FJacVar _ => True
+    end.
+
   Definition restores_in_finally : bool :=
     grad_finally fl && mg_finally fl && mj_finally fl && (nj_flat_copy fl && nj_pert_copy fl).
 
   Lemma k_run_form : forall fm,
-    restores_in_finally = true -> safe_form fm -> keeps Good (run_form fl autograd O fm).
+    restores_in_finally = true -> safe_form fm -> params_not_written fm -> keeps Good (run_form fl autograd O fm).
   Proof.
-    intros fm Hfl Hs. unfold restores_in_finally in Hfl.
+    intros fm Hfl Hs Hw. unfold restores_in_finally in Hfl.
     apply andb_true_iff in Hfl. destruct Hfl as [Hfl Hnj]. apply andb_true_iff in Hnj.
     apply andb_true_iff in Hfl. destruct Hfl as [Hfl Hmj].
     apply andb_true_iff in Hfl. destruct Hfl as [Hg Hmg].
-    destruct fm as [p|syms|p|v|p|syms]; cbn [run_form safe_form] in *.
-    - eapply k_bind_post; [apply h_getvar_eq|]. intros v Hv.
+    destruct fm as [p|syms|p|v|p|syms]; cbn [run_form safe_form params_not_written] in *.
+    - eapply k_bind_post; [apply h_getvar_eq; exact Hw|]. intros v Hv.
       apply k_bind; [|intros ?; apply k_ret]. apply k_grad_of_fn.
       destruct Hs as [H|H]; [now left | right; apply H; exact Hv].
     - apply k_bind; [|intros ?; apply k_ret]. apply k_multi_grad_of_fn; assumption.
@@ -645,18 +687,44 @@ End Forms.
 Definition store_preserved (s s' : store) : Prop :=
   (forall n, lookup n (vars s') = lookup n (vars s)) /\ exists ext, heap s' = heap s ++ ext.
 
-Lemma Good_init : forall s0 lg, Inv s0 (Veq s0) (mkSt s0 lg).
-Proof. intros s0 lg. split; [exists []; simpl; now rewrite app_nil_r | intros n; reflexivity]. Qed.
+(* ... up to the names W the differentiated function itself assigns *)
+Definition store_preserved_outside (W : list name) (s s' : store) : Prop :=
+  (forall n, ~ In n W -> lookup n (vars s') = lookup n (vars s)) /\ exists ext, heap s' = heap s ++ ext.
+
+Lemma Good_init : forall s0 W lg, Inv s0 (Vout s0 W) (mkSt s0 lg).
+Proof. intros s0 W lg. split; [exists []; simpl; now rewrite app_nil_r | intros n _; reflexivity]. Qed.
+
+Theorem restore_with_writes : forall W fl autograd O fm s0 lg r s',
+  restores_in_finally fl = true ->
+  writes_in W O -> params_not_written W fm ->
+  safe_form s0 fl autograd fm ->
+  run_form fl autograd O fm (mkSt s0 lg) = (r, s') ->
+  store_preserved_outside W s0 (sto s').
+Proof.
+  intros W fl autograd O fm s0 lg r s' Hfl HO Hw Hs Hrun.
+  pose proof (k_run_form s0 W fl autograd O HO fm Hfl Hs Hw (mkSt s0 lg) (Good_init s0 W lg)) as H.
+  rewrite Hrun in H. destruct r; destruct H as [Hf HV]; split; auto.
+Qed.
+
+(* a function that assigns nothing *)
+Definition read_only (O : oracle) : Prop := forall k a s, snd (O k a s) = [].
+
+Lemma read_only_writes_in : forall O, read_only O -> writes_in [] O.
+Proof. intros O H k a s p Hp. rewrite H in Hp. exact Hp. Qed.
+
+Lemma params_not_written_nil : forall fm, params_not_written [] fm.
+Proof. intros fm. destruct fm; simpl; auto. Qed.
 
 Theorem restore_outside_alias : forall fl autograd O fm s0 lg r s',
-  restores_in_finally fl = true ->
+  restores_in_finally fl = true -> read_only O ->
   safe_form s0 fl autograd fm ->
   run_form fl autograd O fm (mkSt s0 lg) = (r, s') ->
   store_preserved s0 (sto s').
 Proof.
-  intros fl autograd O fm s0 lg r s' Hfl Hs Hrun.
-  pose proof (k_run_form s0 fl autograd O fm Hfl Hs (mkSt s0 lg) (Good_init s0 lg)) as H.
-  rewrite Hrun in H. destruct r; destruct H as [Hf HV]; split; auto.
+  intros fl autograd O fm s0 lg r s' Hfl HO Hs Hrun.
+  destruct (restore_with_writes [] fl autograd O fm s0 lg r s' Hfl (read_only_writes_in O HO)
+              (params_not_written_nil fm) Hs Hrun) as [Hv Hh].
+  split; [intros n; apply Hv; intros [] | exact Hh].
 Qed.
 
 Lemma safe_form_copies : forall s0 fl autograd fm, ng_copies_input fl = true -> safe_form s0 fl autograd fm.
@@ -671,19 +739,22 @@ Proof.
 Qed.
 
 Theorem restore_full : forall fl autograd O fm s0 lg r s',
-  restores_in_finally fl = true -> ng_copies_input fl = true ->
+  restores_in_finally fl = true -> ng_copies_input fl = true -> read_only O ->
   run_form fl autograd O fm (mkSt s0 lg) = (r, s') ->
   store_preserved s0 (sto s').
 Proof.
   intros. eapply restore_outside_alias; eauto. apply safe_form_copies. assumption.
 Qed.
 
+Theorem restore_full_with_writes : forall W fl autograd O fm s0 lg r s',
+  restores_in_finally fl = true -> ng_copies_input fl = true ->
+  writes_in W O -> params_not_written W fm ->
+  run_form fl autograd O fm (mkSt s0 lg) = (r, s') ->
+  store_preserved_outside W s0 (sto s').
+Proof.
+  intros. eapply restore_with_writes; eauto. apply safe_form_copies. assumption.
+Qed.
+
 (* evaluating the same function afterwards returns what it returned before *)
 Definition reads_only_visible (f : store -> fres) : Prop :=
   forall s s', store_preserved s s' -> f s' = f s.
-
-Theorem again_outside_alias : forall fl autograd O fm s0 lg r s' f,
-  restores_in_finally fl = true -> safe_form s0 fl autograd fm -> reads_only_visible f ->
-  run_form fl autograd O fm (mkSt s0 lg) = (r, s') ->
-  f (sto s') = f s0.
-Proof. intros. apply H1. eapply restore_outside_alias; eauto. Qed.
